@@ -119,7 +119,9 @@ TNext == TReset \/ TWOpenCall \/ TWOpenRet \/ TWCall \/ TWRet \/ TWCloseCall \/ 
          \/ TRecv \/ TDBCloseCall \/ TDBCloseRet \/ TQuiesce \/ TSilent
 TSpec == TInit /\ [][TNext]_tvars
 
-Mark == IF l > TLCGet(1) THEN TLCSet(1, l) ELSE TRUE
+\* (the search stops as soon as one behaviour explains the whole trace)
+Mark == /\ IF l > TLCGet(1) THEN TLCSet(1, l) ELSE TRUE
+        /\ IF l = Len(Trace) + 1 THEN TLCSet("exit", TRUE) ELSE TRUE
 Accepted == \/ TLCGet(1) = Len(Trace) + 1
             \/ (PrintT(<<"HW", TLCGet(1)>>) /\ FALSE)
 =============================================================================
